@@ -26,10 +26,8 @@ func (e *AutoEscapeExtension) Init(env *stick.Env) error {
 			ct = stick.CoerceString(args[0])
 		}
 
-		if sval, ok := val.(stick.SafeValue); ok {
-			if sval.IsSafe(ct) {
-				return val
-			}
+		if stick.IsSafe(val, ct) {
+			return val
 		}
 
 		escfn, ok := e.Escapers[ct]
